@@ -1,8 +1,17 @@
 (* C15: the store protocol over a key-value engine whose committed transactions are durable and
-   atomic.  Store(m) = one transaction (key = id, value = Encode(m), expiry = id time + ttl),
-   acknowledged only after the commit returned.  A crash may hit before, inside or after a store
-   call.  The engine (badger) is abstract: [crash_keeps] is the assumption about it. *)
-From Emitter Require Import Lib.Base Model.MsgCodec.
+   atomic.  Store(m) = one transaction writing the entry (key = id, value = Encode(m), expiry =
+   id time + ttl), acknowledged only after the commit returned.  A crash may hit before, inside or
+   after a store call.  After a restart a query decodes the values of the surviving entries.  The
+   engine (badger) is abstract: "what was committed is there after the crash" is the assumption about
+   it, exercised by the c15 harness. *)
+From Emitter Require Import Lib.Base Model.MsgCodec Model.Store.
+
+(* what SSD.storeFrame writes for a message (the retained marker already replaced) *)
+Record kv := KV { kv_key : bytes; kv_value : bytes; kv_expires : Z }.
+Definition entry_of (m : msg) : kv :=
+  KV (m_id m) (enc_msg m) (match id_time (m_id m) with Ok t => t + Z.of_N (m_ttl m) | _ => 0 end)%Z.
+(* loadMessage *)
+Definition recover (e : kv) : res cerr msg := match dec_msg (kv_value e) with Ok (m, _) => Ok m | Err x => Err x | Panic => Panic end.
 
 Inductive sop :=
 | SStore (m : msg) (completed : bool)   (* a store call; completed = it returned (was acknowledged) *)
@@ -11,13 +20,13 @@ Inductive sop :=
 
 (* what the engine has committed; an in-flight transaction of an interrupted call may or may not
    have committed: the choice is an input ([landed]) *)
-Record dstate := D { d_committed : list msg; d_acked : list msg; d_tried : list msg }.
+Record dstate := D { d_committed : list kv; d_acked : list msg; d_tried : list msg }.
 Definition d0 := D [] [] [].
 
 Definition dstep (landed : msg -> bool) (s : dstate) (o : sop) : dstate :=
   match o with
-  | SStore m true => D (d_committed s ++ [m]) (d_acked s ++ [m]) (d_tried s ++ [m])
-  | SStore m false => D (if landed m then d_committed s ++ [m] else d_committed s) (d_acked s) (d_tried s ++ [m])
+  | SStore m true => D (d_committed s ++ [entry_of m]) (d_acked s ++ [m]) (d_tried s ++ [m])
+  | SStore m false => D (if landed m then d_committed s ++ [entry_of m] else d_committed s) (d_acked s) (d_tried s ++ [m])
   | SCrash => s            (* committed transactions survive the crash: the engine assumption *)
   | SRestartClean => s
   end.
